@@ -144,6 +144,15 @@ def close_flag_window_rule(ctx, rule):
             rule.violation(key, "close_object of a data packet is computed from {%s}: with interleave_blocks > 1 another open block "
                                 "may still hold repair symbols when the current block drains and the source-byte counter is complete, "
                                 "so the B flag precedes later packets of the same transfer" % ", ".join(deps)[:300], loc(s.sp))
+        # ... and not from the reader's own end-of-source latch: `read_end` is set with the last block for a buffer but only by one more read
+        # (made when the window has room) for a stream - a flag that waits for it differs between the two kinds of source
+        key3 = "BlockEncoder::read close_object independent of the reader's end-of-source state"
+        if any(re.match(r"^var:self\.read_end\b", z) for z in srcs):
+            rule.violation(key3, "close_object of a data packet depends on self.read_end: a stream source sets it one read later than a buffer (only "
+                                 "when the interleaving window has room), so the last packet of a stream whose last block fills the window loses "
+                                 "the B flag", loc(s.sp))
+        else:
+            rule.ok(key3, "", loc(s.sp))
         # the byte threshold of "every source byte has been read" is the transfer length (what is actually cut into symbols), compared with the
         # source-byte counter
         from ..cfg import cmp_kind, strip_ref
@@ -440,6 +449,15 @@ def run(ctx):
     from . import c07, c12
     c07.partition_call_agreement(ctx, r9)
     c12.transfer_counter_rule(ctx, r9)
+    _r10(ctx)
+
+
+def _r10(ctx):
+    from . import c01
+    r10 = ctx.rule("C08.R10", "every source symbol has its own (SBN, ESI) on the wire: an object is admitted only behind the refusal gate of the OTI "
+                              "it is sent with (transfer_length <= that OTI's max_transfer_length(), which bounds the number of blocks by the SBN "
+                              "field of the scheme) - shared with C01.R1", "MPT+WMC")
+    c01.admission_gate_rule(ctx, r10)
 
 
 def c07_text():
